@@ -480,12 +480,16 @@ pub fn run<F: Family>(tier: Tier, seed: u64) -> i32 {
             let data: Vec<u8> = (0..l).map(|j| ((done as usize + j) as u8).wrapping_mul(13) ^ 0x5A).collect();
             let mut a = data.clone();
             let mut w = data.clone();
-            if enc_dir {
-                F::enc(&mut e, &mut a);
+            let r = if enc_dir {
                 rm.enc(&mut w);
+                mc::util::catch(|| F::enc(&mut e, &mut a))
             } else {
-                F::dec(&mut d, &mut a);
                 rm.dec(&mut w);
+                mc::util::catch(|| F::dec(&mut d, &mut a))
+            };
+            if let Err(m) = r {
+                viol::<F>(&report, if enc_dir { "long-stream-encrypt" } else { "long-stream-decrypt" }, "panic", key, json!({"stream_offset": done, "call_len": l}), format!("the cipher panicked at stream offset {done}: {m}"));
+                return;
             }
             rm.n %= rk.len();
             if a != w {
